@@ -49,6 +49,8 @@ static _Atomic rid_t c_a = 0;
 static _Atomic rid_t c_b = 0;
 
 static _Atomic nid_t gvt_nodes;
+/// The count of local threads which left the main loop and are waiting in gvt_msg_drain()
+static _Atomic rid_t drain_waiting;
 
 __thread _Bool gvt_phase;
 __thread uint32_t remote_msg_seq[2][MAX_NODES];
@@ -265,7 +267,8 @@ simtime_t gvt_phase_run(void)
 	if(unlikely(!rid && !nid)) {
 		timer_uint t = timer_new();
 		if(unlikely(global_config.gvt_period < t - gvt_timer &&
-			    !atomic_load_explicit(&gvt_nodes, memory_order_relaxed))) {
+			    !atomic_load_explicit(&gvt_nodes, memory_order_relaxed) &&
+			    !atomic_load_explicit(&drain_waiting, memory_order_acquire))) {
 			VH(VH_GVT_INITIATE, NULL, 0, 0);
 			gvt_timer = t;
 			atomic_fetch_add_explicit(&gvt_nodes, n_nodes, memory_order_relaxed);
@@ -279,12 +282,26 @@ simtime_t gvt_phase_run(void)
 void gvt_msg_drain(void)
 {
 	VH(VH_DRAIN, NULL, 0, 0);
-	while(thread_phase != thread_phase_idle) // flush partial gvt algorithm
+	// Threads leave the main loop at different moments: until all the local threads got here, one of them can still
+	// start (or be in the middle of) a reduction, which completes only if everybody keeps taking part in it.
+	// Once a thread is waiting here no new reduction is started (see gvt_phase_run()).
+	while(thread_phase != thread_phase_idle) { // flush partial gvt algorithm
 		gvt_phase_run();
+		mpi_remote_msg_drain();
+	}
+	// announce the arrival only when idle: a waiting thread leaves as soon as everybody arrived and it is idle itself
+	atomic_fetch_add_explicit(&drain_waiting, 1U, memory_order_acq_rel);
+	while(thread_phase != thread_phase_idle ||
+	    atomic_load_explicit(&drain_waiting, memory_order_acquire) != global_config.n_threads) {
+		gvt_phase_run();
+		mpi_remote_msg_drain();
+	}
 
 	VH(VH_DRAIN, NULL, 1, 0);
-	if(sync_thread_barrier())
+	if(sync_thread_barrier()) {
 		mpi_node_barrier();
+		atomic_store_explicit(&drain_waiting, 0U, memory_order_release); // the flushing reductions below must start
+	}
 	sync_thread_barrier();
 
 	VH(VH_DRAIN, NULL, 2, 0);
